@@ -5,6 +5,10 @@ type nat =
 | O
 | S of nat
 
+val fst : ('a1 * 'a2) -> 'a1
+
+val snd : ('a1 * 'a2) -> 'a2
+
 val length : 'a1 list -> nat
 
 val app : 'a1 list -> 'a1 list -> 'a1 list
@@ -39,9 +43,13 @@ val rev : 'a1 list -> 'a1 list
 
 val rev_append : 'a1 list -> 'a1 list -> 'a1 list
 
+val concat : 'a1 list list -> 'a1 list
+
 val map : ('a1 -> 'a2) -> 'a1 list -> 'a2 list
 
 val existsb : ('a1 -> bool) -> 'a1 list -> bool
+
+val find : ('a1 -> bool) -> 'a1 list -> 'a1 option
 
 val firstn : nat -> 'a1 list -> 'a1 list
 
@@ -73,6 +81,8 @@ module Pos :
 
   val pred_double : positive -> positive
 
+  val pred_N : positive -> n
+
   val mul : positive -> positive -> positive
 
   val iter : ('a1 -> 'a1) -> 'a1 -> positive -> 'a1
@@ -83,11 +93,32 @@ module Pos :
 
   val eqb : positive -> positive -> bool
 
+  val coq_Nsucc_double : n -> n
+
+  val coq_Ndouble : n -> n
+
+  val coq_lor : positive -> positive -> positive
+
+  val coq_land : positive -> positive -> n
+
+  val ldiff : positive -> positive -> n
+
   val iter_op : ('a1 -> 'a1 -> 'a1) -> positive -> 'a1 -> 'a1
 
   val to_nat : positive -> nat
 
   val of_succ_nat : nat -> positive
+ end
+
+module N :
+ sig
+  val succ_pos : n -> positive
+
+  val coq_lor : n -> n -> n
+
+  val coq_land : n -> n -> n
+
+  val ldiff : n -> n -> n
  end
 
 module Z :
@@ -128,11 +159,17 @@ module Z :
 
   val of_nat : nat -> z
 
+  val of_N : n -> z
+
   val pos_div_eucl : positive -> z -> z * z
 
   val div_eucl : z -> z -> z * z
 
   val modulo : z -> z -> z
+
+  val coq_land : z -> z -> z
+
+  val ldiff : z -> z -> z
  end
 
 type fault =
@@ -166,6 +203,8 @@ val wrn : buf -> nat -> z -> buf res
 
 val bytes : z list -> buf
 
+val cstr : z list -> buf -> buf
+
 val strlen : buf -> nat res
 
 val take_str : buf -> z list
@@ -175,6 +214,12 @@ val isspace : z -> bool
 val isupper : z -> bool
 
 val tolower : z -> z
+
+val strncpy_loop : buf -> buf -> nat -> nat -> (bool * buf) res
+
+val safe_strncpy_at : buf -> nat -> buf -> z -> (bool * buf) res
+
+val safe_strncpy : buf -> buf -> z -> (bool * buf) res
 
 val sub_cells : buf -> nat -> nat -> cell list res
 
@@ -500,3 +545,79 @@ val istep :
   afs -> bool -> z list -> (iconf * z) -> op -> ((iconf * z) * opres) res
 
 val ifind : z -> z option -> (z * bool) list -> ff_out option res
+
+type tpiece =
+| PLit of z list
+| PEnv of z list
+| PTpl
+
+type tstmt =
+| TRequireLen
+| TUmaskSave of z
+| TUmaskSet of z
+| TMkstemp
+| TUmaskRestore
+| TFailIfBad of z
+| TCopyBack
+| TReturnFd
+
+val temp_buff_size : z
+
+val temp_branches : (z list option * tpiece list) list
+
+val temp_prog : tstmt list
+
+val beq_bytes : z list -> z list -> bool
+
+type world = { w_umask : z; w_files : (z list * z) list;
+               w_fds : (z * z list) list }
+
+type oracle = { o_dir_ok : bool; o_picks : z list list; o_fd : z;
+                o_fchmod_ok : bool }
+
+val has_file : (z list * z) list -> z list -> bool
+
+val xs6 : z list
+
+val libc_create_mode : z
+
+val try_picks : z list -> (z list * z) list -> z list list -> z list option
+
+val mkstemp : world -> oracle -> z list -> (world * z) * z list
+
+val fd_name : (z * z list) list -> z -> z list option
+
+val set_mode : (z list * z) list -> z list -> z -> (z list * z) list
+
+val fchmod : world -> oracle -> z -> z -> world * bool
+
+val piece_bytes : (z list -> z list option) -> z list -> tpiece -> z list
+
+val pick_branch :
+  (z list -> z list option) -> (z list option * tpiece list) list -> tpiece
+  list
+
+val temp_name : (z list -> z list option) -> z list -> z list
+
+type tstate = { t_w : world; t_saved : z; t_fd : z; t_buff : z list;
+                t_tpl : buf; t_ret : z option }
+
+val with_w : tstate -> world -> tstate
+
+val with_ret : tstate -> z -> tstate
+
+val set_umask : world -> z -> world
+
+val exec : oracle -> z -> tstate -> tstmt -> tstate res
+
+val exec_all : oracle -> z -> tstate -> tstmt list -> tstate res
+
+val temp_file :
+  (z list -> z list option) -> buf -> z -> world -> oracle ->
+  ((z * buf) * world) res
+
+val env2 : z list option -> z list option -> z list -> z list option
+
+val world0 : z -> (z list * z) list -> world
+
+val fd_mode : world -> z -> z option
